@@ -36,7 +36,9 @@ def _tree_case(draw, max_depth):
     return {"kind": "tree", "tree": t, "data": draw(vec(24, -2.0, 2.0)), "s": draw(mtree.nz),
             # lazily cached attributes evaluated on the object before anything is observed: derived objects
             # (inverse, transpose, multiples) may be handed caches that exist only for some evaluation orders
-            "warm": draw(st.lists(st.sampled_from(WARM), max_size=3))}
+            "warm": draw(st.lists(st.sampled_from(WARM), max_size=3)),
+            # a scalar of extreme magnitude (change of units) for multiples / quotients of the warmed object
+            "big": draw(st.sampled_from([None, 1e-12, 1e-9, -1e-9, 1e-6, 1e6, -1e6, 1e9, 1e12]))}
 
 
 @st.composite
@@ -99,6 +101,24 @@ class Checker:
                           f"max abs err {err:.3e}, tolerance {self.tol * scale:.3e}", err=err)
 
 
+def _eq_rel(ck, what, fn, ref):
+    """Like Checker.eq but relative to the magnitude of the reference (for results scaled by 1e-12 ... 1e12)."""
+    got = ck.call(what, fn)
+    if got is None:
+        return
+    got, ref = np.asarray(got, dtype=float), np.asarray(ref, dtype=float)
+    if got.shape != ref.shape:
+        ck.res.fail(f"C10:{ck.label}:{what}:shape", f"{what}: shape {got.shape} != {ref.shape}")
+        return
+    scale = float(np.max(np.abs(ref))) if ref.size else 1.0
+    if not 1e-200 < scale < 1e200 or (ref.size and float(np.min(np.abs(ref[ref != 0]), initial=1.0)) < 1e-250):
+        return      # sub-normal / overflow range of doubles: relative accuracy is not defined there
+    err = float(np.max(np.abs(got - ref))) if ref.size else 0.0
+    if not np.all(np.isfinite(got)) or err > ck.tol * scale:
+        ck.res.fail(f"C10:{ck.label}:{what}", f"{what} of {ck.label} differs from dense reference: max abs err "
+                    f"{err:.3e} relative to {scale:.3e}, tolerance {ck.tol:.3e}", err=err)
+
+
 def _root_label(spec, M):
     """Root-cause label: class of the root object plus the defining option that matters."""
     lab = type(M).__name__
@@ -124,7 +144,7 @@ def _eig_consistent(ck, what, X, Rx, n):
     return lam, V
 
 
-def observe(res, M, R, tol, data, label, s, warm=()):
+def observe(res, M, R, tol, data, label, s, warm=(), big=None):
     """All observables of a matrix object against the dense reference R."""
     from mici import matrices as mm
 
@@ -196,6 +216,21 @@ def observe(res, M, R, tol, data, label, s, warm=()):
                 ck.eq("sqrt:SSt=A", lambda: Sa @ Sa.T, R)
                 ck.eq("sqrt-matmul", lambda: S @ v, Sa @ v)
                 ck.eq("sqrt-T-matmul", lambda: S.T @ v, Sa.T @ v)
+    # scalar multiples of extreme magnitude (unit changes: 1e-9, 1e+12 ...), judged relative to the result's own scale
+    if big is not None and n == m:
+        for tag, X, f in (("big(c*M).", ck.call("big-scalar-mul", lambda: big * M), big),
+                          ("big(M/c).", ck.call("big-scalar-div", lambda: M / big), 1.0 / big)):
+            if X is None:
+                continue
+            cx = mtree.caps(X)
+            _eq_rel(ck, tag + "array", lambda: X.array, f * R)
+            _eq_rel(ck, tag + "matmul-vector", lambda: X @ v, f * (R @ v))
+            if isinstance(X, mm.SquareMatrix):
+                ck.eq(tag + "log_abs_det", lambda: X.log_abs_det, np.linalg.slogdet(R)[1] + n * np.log(abs(f)),
+                      extra_scale=n * abs(np.log(abs(f))))
+            if cx["inv"]:
+                _eq_rel(ck, tag + "inv.array", lambda: X.inv.array, np.linalg.inv(R) / f)
+                _eq_rel(ck, tag + "inv-matmul", lambda: X.inv @ v, np.linalg.solve(R, v) / f)
     # objects derived now, after every cache of M has been populated
     for tag, X, Rx in (("late(s*M).", ck.call("late-scalar-mul", lambda: s * M), s * R),
                        ("late(-M).", ck.call("late-neg", lambda: -M), -R)):
@@ -244,7 +279,7 @@ def check_node(spec, case):
         return r, None
     for cls, op, cap, got in usable:
         r.fail(f"C10:usable:{cls}.{op}:{cap}", f"{op} of a {cls} (usable as {cap}) gave a {got} that is not")
-    observe(r, b.M, b.R, 1e-10 * b.kappa, case["data"], _root_label(spec, b.M), case["s"], case.get("warm", ()))
+    observe(r, b.M, b.R, 1e-10 * b.kappa, case["data"], _root_label(spec, b.M), case["s"], case.get("warm", ()), case.get("big"))
     return r, b
 
 
